@@ -26,6 +26,7 @@ import (
 	"os"
 	"strings"
 	"sync"
+	"time"
 
 	"filippo.io/age"
 	"filippo.io/age/zverif/ax"
@@ -638,7 +639,12 @@ func workSide(r *mon.Run) {
 	}
 	runChildCases(r, "work", cc)
 	// the history side continues on the same single-threaded footing
+	t0 := time.Now()
 	historySide(r, specs)
+	t1 := time.Now()
+	crossSide(r)
+	// reporting only: no oracle looks at a clock
+	r.Set("stage_wall_s", map[string]float64{"history": t1.Sub(t0).Seconds(), "cross": time.Since(t1).Seconds()})
 	r.Set("max_alloc_delta_on_metered_rejection_bytes", maxRejectDelta)
 	r.Set("reject_threshold_bytes", rejectThreshold)
 }
